@@ -89,7 +89,7 @@ pub fn policies_strategy() -> impl Strategy<Value = Vec<PolicySpec>> {
 // ------------------------------------------------------------------------------ fetch results
 
 /// lifetimes (seconds, relative to the fetch) straddling now / threshold / min delay / refetch
-pub fn life_strategy(cfg: &Cfg) -> impl Strategy<Value = Life> {
+pub fn life_strategy(cfg: &Cfg) -> impl Strategy<Value = Life> + use<> {
     let thr = (cfg.threshold_ms / 1000) as i32;
     let md = (cfg.min_delay_ms / 1000) as i32;
     let rf = (cfg.refetch_ms / 1000).min(100_000) as i32;
@@ -108,12 +108,12 @@ pub fn meta_strategy() -> impl Strategy<Value = Meta> {
     prop_oneof![7 => Just(Meta::Full), 2 => Just(Meta::NoIfaces), 2 => Just(Meta::Absent)]
 }
 
-pub fn path_spec_strategy(cfg: &Cfg, routes: Vec<u8>) -> impl Strategy<Value = PathSpec> {
+pub fn path_spec_strategy(cfg: &Cfg, routes: Vec<u8>) -> impl Strategy<Value = PathSpec> + use<> {
     (pick(routes), life_strategy(cfg), pick(vec![1u8, 1, 1, 1, 3, 0, 2, 255]), 0u8..3, meta_strategy(), pick(vec![0u16, 0, 0, 0, 5000]))
         .prop_map(|(route, life, exp_unit, min_seg, meta, meta_exp_skew)| PathSpec { route, life, exp_unit, min_seg, meta, meta_exp_skew })
 }
 
-pub fn fetch_strategy(cfg: &Cfg, max_paths: usize) -> impl Strategy<Value = FetchSpec> {
+pub fn fetch_strategy(cfg: &Cfg, max_paths: usize) -> impl Strategy<Value = FetchSpec> + use<> {
     let all: Vec<u8> = (0..world::POOL as u8).collect();
     let few: Vec<u8> = vec![0, 2, 6];
     prop_oneof![
@@ -127,7 +127,7 @@ pub fn fetch_strategy(cfg: &Cfg, max_paths: usize) -> impl Strategy<Value = Fetc
 
 // ------------------------------------------------------------------------------ time
 
-pub fn adv_strategy(cfg: &Cfg) -> impl Strategy<Value = Adv> {
+pub fn adv_strategy(cfg: &Cfg) -> impl Strategy<Value = Adv> + use<> {
     let thr = cfg.threshold_ms as u32;
     let md = cfg.min_delay_ms as u32;
     let rf = cfg.refetch_ms.min(4_000_000) as u32;
@@ -137,7 +137,7 @@ pub fn adv_strategy(cfg: &Cfg) -> impl Strategy<Value = Adv> {
         5 => pick(ms).prop_map(Adv::Ms),
         2 => (0u32..20_000).prop_map(Adv::Ms),
         4 => pick(vec![-1i32, 0, 0, 1, 1000]).prop_map(Adv::NextMaintain),
-        3 => pick(vec![-1000i32, -1, 0, 1, 500, 1000]).prop_map(Adv::ActiveExpiry),
+        5 => pick(vec![-1000i32, -1, 0, 1, 500, 1000]).prop_map(Adv::ActiveExpiry),
         2 => pick(vec![-1000i32, 0, 1000]).prop_map(Adv::ActiveNear),
     ]
 }
